@@ -117,6 +117,17 @@ def gen_scenario(seed: int, algos: Sequence[str], envs: Optional[Sequence[str]] 
         sc["cone"] = gen_cone(rng, m=2, allow_kf_ne_m=False)
     else:
         sc["cone"] = gen_cone(rng, m=m, orthant_only=orth, allow_kf_ne_m=features.get("kf_ne_m", True))
+    if features.get("d8_hunt"):
+        # hunted candidate D8: rectangles + a cone with (W alpha)_n > alpha_n (obtuse cones), where the
+        # eps-slack eps*alpha is read as an objective-space shift
+        c = rng.random()
+        if c < 0.6:
+            sc["cone"] = {"kind": "theta2d", "deg": float(rng.choice([100, 110, 120, 135, 150, 160, 170]))}
+        elif c < 0.8:
+            sc["cone"] = {"kind": "cone3d", "type": "obtuse"}
+        else:
+            mm = int(rng.choice([2, 3]))
+            sc["cone"] = {"kind": "matrix", "W": random_cone_matrix(rng, mm, mm).tolist()}
     W = _cone_W(sc["cone"])
     Kf, m = W.shape
     alpha = O.oracle_alpha(W)
@@ -135,6 +146,15 @@ def gen_scenario(seed: int, algos: Sequence[str], envs: Optional[Sequence[str]] 
     elif algo == "EpsilonPAL":
         slack_vec = np.full(m, sc["eps"])
     mu, info = gen_values(rng, K, m, W, alpha, sc["eps"], slack_vec)
+    if features.get("d8_hunt"):
+        # planted gaps strictly between eps and eps * max_n (W alpha)_n / alpha_n, along W v = alpha
+        ratio = float(np.max((W @ alpha) / alpha))
+        v = np.linalg.lstsq(W, alpha, rcond=None)[0]
+        mu = rng.normal(size=(K, m)) * 0.7
+        for p in range(K // 2):
+            f = 1.0 + (max(ratio, 1.0) - 1.0) * float(rng.uniform(0.05, 0.95)) if ratio > 1.0 else float(rng.choice([1.01, 1.1]))
+            mu[2 * p + 1] = mu[2 * p] + sc["eps"] * f * v
+        info = {"style": "d8-planted", "ratio": ratio}
     sc["X"] = gen_inputs(rng, K, d).tolist()
     sc["mu"] = mu.tolist()
     sc["values_info"] = info
@@ -146,11 +166,11 @@ def gen_scenario(seed: int, algos: Sequence[str], envs: Optional[Sequence[str]] 
         sc["batch"] = int(rng.choice(opts))
     provoke = bool(features.get("provoke_open_findings"))
     if algo == "PaVeBaGP":
-        sc["gp_type"] = str(rng.choice(["IH", "DE"]))
+        sc["gp_type"] = "IH" if features.get("d8_hunt") else str(rng.choice(["IH", "DE"]))
         if Kf != m and not provoke:
             sc["gp_type"] = "DE"  # open finding: rectangles reject a K_f-vector slack
     if algo == "PaVeBaPartialGP":
-        sc["conf_type"] = str(rng.choice(["hyperrectangle", "hyperellipsoid"]))
+        sc["conf_type"] = "hyperrectangle" if features.get("d8_hunt") else str(rng.choice(["hyperrectangle", "hyperellipsoid"]))
         if Kf != m and not provoke:
             sc["conf_type"] = "hyperellipsoid"
         if rng.random() < 0.6:
@@ -214,6 +234,8 @@ def gen_scenario(seed: int, algos: Sequence[str], envs: Optional[Sequence[str]] 
     if rng.random() < 0.2 and K >= 2:
         i, j = rng.choice(K, 2, replace=False)
         adv["twins"] = [[int(i), int(j), int(rng.integers(2, 8))]]
+    if features.get("d8_hunt"):
+        adv.update({"aniso": True, "cond": float(rng.choice([100, 1e4])), "rho_mode": str(rng.choice(["hug", "mix"])), "degenerate": bool(rng.random() < 0.3), "jump": bool(rng.random() < 0.5)})
     sc["adv"] = adv
     if "twins" in adv and not sc["byz"] and sc["env"] == "post_adv":
         # identical posteriors are only a *valid* history when the truths coincide too (F6)
